@@ -73,6 +73,30 @@ Proof.
     apply in_map_iff. exists (id, w). split; auto. simpl. destruct (Nat.eqb_spec id n0); subst; reflexivity.
 Qed.
 
+Lemma In_insert_by f x : forall l y, In y (insert_by f x l) -> y = x \/ In y l.
+Proof.
+  induction l as [|a t IH]; simpl; intros y H; [destruct H as [H|[]]; auto|].
+  destruct (f x <=? f a); simpl in H.
+  - destruct H as [H|[H|H]]; auto.
+  - destruct H as [H|H]; auto. apply IH in H. destruct H; auto.
+Qed.
+Lemma In_sort_by f : forall l y, In y (sort_by f l) -> In y l.
+Proof.
+  induction l as [|a t IH]; simpl; intros y H; auto. apply In_insert_by in H. destruct H; auto.
+Qed.
+Lemma In_map_fst_filter (f : nat * Z -> bool) l id : In id (map fst (filter f l)) -> In id (map fst l).
+Proof.
+  intros H. apply in_map_iff in H. destruct H as (e & E & Hin). apply filter_In in Hin. apply in_map_iff. exists e. tauto.
+Qed.
+Lemma In_firstn {A} (l : list A) j x : In x (firstn j l) -> In x l.
+Proof. revert j. induction l; intros [|j]; simpl; try tauto. intros [H|H]; auto. right. eapply IHl; eauto. Qed.
+Lemma In_skipn {A} (l : list A) j x : In x (skipn j l) -> In x l.
+Proof. revert j. induction l; intros [|j]; simpl; try tauto. intros H. right. eapply IHl; eauto. Qed.
+
+Lemma In_firstn_skipn (l : list nat) j k id : In id (firstn j l ++ skipn k l) -> In id l.
+Proof.
+  intros H. apply in_app_iff in H. destruct H as [H|H]; [eapply In_firstn; eauto|eapply In_skipn; eauto].
+Qed.
 Lemma tinv_step s o : tinv s -> tinv (fst (tstep s o)).
 Proof.
   intros I i. set (s' := fst (tstep s o)).
@@ -83,12 +107,19 @@ Proof.
           ttid (ths s' i) <> Some 0%nat).
   { subst s'. destruct o; cbn [tstep]; cbv zeta; tdm; cbn [fst ths tset tupd rver rows];
       try (left; exists i; auto; fail);
-      destruct (Nat.eqb i _) eqn:Ei; try (left; exists i; auto; fail).
+      destruct (Nat.eqb i _) eqn:Ei; try (left; exists i; auto; fail);
+      try (right; right; cbn [ttid]; discriminate).
     - right; left. cbn [tsnap tids tref]. split; [reflexivity|]. intros id [H|[]]; subst.
       apply nth_error_In in Heqo. apply in_map_iff. exists (id, z). auto.
     - right; left. cbn [tsnap tids]. split; [reflexivity|]. auto.
-    - right; right. cbn [ttid]. discriminate.
-    - left. exists ssel. cbn [ttid tsnap tids]. repeat split; auto. intros id [H|[]]; subst. eapply nth_error_In; eauto. }
+    - left. exists ssel. cbn [ttid tsnap tids]. repeat split; auto. intros id [H|[]]; subst. eapply nth_error_In; eauto.
+    - right; left. cbn [tsnap tids]. split; [reflexivity|]. intros id H. eapply In_map_fst_filter; eauto.
+    - left. exists ssel. cbn [ttid tsnap tids sel_handle]. repeat split; auto. intros id [].
+    - left. exists ssel. cbn [ttid tsnap tids sel_handle]. repeat split; auto. intros id H.
+      apply filter_In in H. rewrite Heql. tauto.
+    - left. exists ssel. cbn [ttid tsnap tids sel_handle]. repeat split; auto. intros id H. eapply In_sort_by; eauto.
+    - left. exists ssel. cbn [ttid tsnap tids sel_handle]. repeat split; auto. intros id H. apply in_rev; auto.
+    - left. exists ssel. cbn [ttid tsnap tids sel_handle]. repeat split; auto. intros id H. eapply In_firstn_skipn; eauto. }
   intros Hc.
   destruct Hcase as [(j & E1 & E2 & E3)|[(F1 & F2)|F]]; [| |congruence].
   - rewrite E1 in Hc. destruct (I j Hc) as (A & B). rewrite E2. split; [lia|].
@@ -119,3 +150,61 @@ Example dt_witness :
   = [TAcc None; TAcc None; TAcc None; TAcc None; TAcc (Some 3); TAcc None; TAcc None; TAcc (Some 60);
      TAcc None; TAcc (Some 7); TAcc None; TRej; TRej; TAcc None; TAcc (Some 60); TRej].
 Proof. vm_compute. reflexivity. Qed.
+
+(* ---------- the exact accepted-set of the code ---------- *)
+(* for every history: reading a row reference of this table is accepted IF AND ONLY IF removeVersion is still the value it
+   recorded, i.e. iff none of Remove / Extract / Update(rowNumber,row) / Remove(filter) / Clear ran since it was taken --
+   whether or not that call actually removed a row *)
+Lemma dt_accepted_iff_remove_version_unchanged ops i id :
+  let s := trun tinit ops in
+  ttid (ths s i) = Some 0%nat -> tids (ths s i) = [id] ->
+  ((exists v, tstep s (TRead i) = (s, TAcc (Some v))) <-> tsnap (ths s i) = rver s) /\
+  (tstep s (TRead i) = (s, TRej) <-> tsnap (ths s i) <> rver s).
+Proof.
+  intros s Hc Hi. split; split.
+  - intros (v & E). cbn [tstep] in E; cbv zeta in E. unfold tself in E. rewrite Hc in E.
+    destruct (Nat.eqb_spec (tsnap (ths s i)) (rver s)); [auto|discriminate].
+  - intros Hs. destruct (dt_fresh_reference_accepted ops i id Hc Hs Hi) as (v & E & _). eauto.
+  - intros E Hs. destruct (dt_fresh_reference_accepted ops i id Hc Hs Hi) as (v & E2 & _). fold s in E2. congruence.
+  - intros N. apply (dt_stale_rejected s i (TRead i)); [split; auto|auto].
+Qed.
+
+(* over-invalidation witnesses: Remove(filter) that removes nothing and Clear() of an empty table change no row but
+   bump removeVersion, so references taken before are rejected afterwards *)
+Example dt_noop_remove_filter_invalidates :
+  let pre := [TAddRow 5; TAddRow 6; TRef 0 0] in
+  rows (trun tinit pre) = rows (trun tinit (pre ++ [TRemoveIf 1000003])) /\
+  snd (tstep (trun tinit pre) (TRead 0)) = TAcc (Some 5) /\
+  snd (tstep (trun tinit (pre ++ [TRemoveIf 1000003])) (TRead 0)) = TRej.
+Proof. vm_compute. repeat split. Qed.
+
+(* ---------- selections ---------- *)
+(* A selection (also a selection of a selection, a sorted / reversed / trimmed one -- they all keep the keeper they were created
+   with) whose removeVersion snapshot is not current: reading through it (iteration, selection-of-selection with a reading filter),
+   sorting it by a column and passing its rows to table.Remove(begin,end) are rejected and nothing changes.  (For the reading
+   operations and the range removal an EMPTY stale selection is accepted: nothing is read; Sort checks the keeper first.) *)
+Lemma dt_stale_selection_rejected s i m slot :
+  dt_stale s (ths s i) -> tissel (ths s i) = true -> m <> 0 ->
+  tstep s (TSelSort i) = (s, TRej) /\
+  (tids (ths s i) <> [] ->
+     tstep s (TSelSum i) = (s, TRej) /\ tstep s (TSelOfSel i m slot) = (s, TRej) /\ tstep s (TRemoveSel i) = (s, TRej)).
+Proof.
+  intros (A & B) Sel M.
+  assert (S : tself s (ths s i) = false).
+  { unfold tself. rewrite A. destruct (Nat.eqb_spec (tsnap (ths s i)) (rver s)); [congruence|reflexivity]. }
+  cbn [tstep]; cbv zeta. rewrite Sel, A, S. simpl. split; [reflexivity|]. intros NE.
+  destruct (Z.eqb_spec m 0); [congruence|]. simpl.
+  destruct (tids (ths s i)); [congruence|]. repeat split.
+Qed.
+(* for every history: a selection with a current snapshot only contains rows of the table, and iterating it is accepted *)
+Lemma dt_fresh_selection_accepted ops i :
+  let s := trun tinit ops in
+  ttid (ths s i) = Some 0%nat -> tsnap (ths s i) = rver s -> tissel (ths s i) = true ->
+  (forall id, In id (tids (ths s i)) -> In id (map fst (rows s))) /\
+  exists v, tstep s (TSelSum i) = (s, TAcc (Some v)).
+Proof.
+  intros s Hc Hs Sel. pose proof (tinv_run ops tinit tinv_init) as I. fold s in I.
+  destruct (I i Hc) as (_ & B). split; [exact (B Hs)|].
+  cbn [tstep]; cbv zeta. unfold tself. rewrite Sel, Hc, Hs, Nat.eqb_refl. simpl.
+  destruct (tids (ths s i)); eauto.
+Qed.
